@@ -189,6 +189,51 @@ pub fn builder_plans(ctx: &mut Ctx, opts: &RunOpts) {
             ctx.count("builder-plans");
         }
     }
+    // random builder call sequences (every method, repeated and overriding each other, in any order)
+    {
+        let total = ctx.vol(if ctx.quick() { 240 } else { 20_000 });
+        let ks = kinds();
+        for i in 0..total {
+            if !ctx.mine(i) {
+                continue;
+            }
+            if ctx.expired() {
+                return;
+            }
+            let mut r = rng_for(ctx.seed, &["rand-builder"], i);
+            let (kt, scheme) = ks[(i / ctx.nshards) as usize % ks.len()];
+            let nent = below(&mut r, 9) as usize;
+            let mut p: Vec<BEntry> = Vec::new();
+            for _ in 0..nent {
+                let port = || -> u16 { 0 };
+                let _ = port;
+                p.push(match below(&mut r, 13) {
+                    0 => BEntry::Seq(if below(&mut r, 2) == 0 { *crate::util::pick(&mut r, &gen::SEQ_EDGES) } else { rand::RngCore::next_u64(&mut r) }),
+                    1 => BEntry::Ip4([below(&mut r, 256) as u8, 0, 0, 1]),
+                    2 => BEntry::Ip6([below(&mut r, 256) as u8; 16]),
+                    3 => BEntry::Ip(*crate::util::pick(&mut r, &["::ffff:1.2.3.4".parse().unwrap(), "9.9.9.9".parse().unwrap(), "::".parse().unwrap(), "fe80::1".parse().unwrap()])),
+                    4 => BEntry::Tcp4(*crate::util::pick(&mut r, &gen::PORT_EDGES)),
+                    5 => BEntry::Tcp6(*crate::util::pick(&mut r, &gen::PORT_EDGES)),
+                    6 => BEntry::Udp4(rand::RngCore::next_u32(&mut r) as u16),
+                    7 => BEntry::Udp6(*crate::util::pick(&mut r, &gen::PORT_EDGES)),
+                    8 => BEntry::Client(gen::random_string(&mut r).chars().take(12).collect(), "v".into(), if below(&mut r, 2) == 0 { None } else { Some("b".into()) }),
+                    9 => {
+                        let n = [0usize, 1, 55, 56, 3][below(&mut r, 5) as usize];
+                        BEntry::Add(gen::custom_key(&mut r), Val::B(crate::util::rand_bytes(&mut r, n)))
+                    }
+                    10 => BEntry::Add(gen::custom_key(&mut r), Val::U64(rand::RngCore::next_u64(&mut r) >> below(&mut r, 64))),
+                    11 => BEntry::AddRaw(gen::custom_key(&mut r), rlp::enc_item(&gen::random_tree(&mut r, 2))),
+                    _ => {
+                        let n = below(&mut r, 6) as usize;
+                        BEntry::AddRaw(gen::custom_key(&mut r), crate::util::rand_bytes(&mut r, n))
+                    }
+                });
+            }
+            let h = mk_history(scheme, OWN, OTHER, &Init::Build(p), vec![Step { op: Op::SetTcp4(7), signer: Signer::Own }]);
+            run_hist_kt(ctx, kt, false, &h, opts);
+            ctx.count("random-builder-plans");
+        }
+    }
     // builder re-use: build() twice from one builder (it stores id and the key in its own content), then
     // once more with another key of the same scheme — each result must be the model's
     builder_reuse(ctx);
